@@ -14,6 +14,7 @@ callback exactly once — C10), `serverProcess.result()` after `abort()` and the
 (both end when the process ends; process.go bounds that by its grace timers).
 -/
 import ConfModel.Lemmas.ServerRunner
+import ConfModel.Props.C10
 namespace ConfModel.Props.C11
 open ConfModel.ServerRunner ConfModel.ServerRunner.Spec
 
@@ -209,7 +210,111 @@ theorem stderr_processed (s : Script) (hs : s.startErr = false) :
   cases s.isRef <;> simp only [Bool.false_eq_true, if_false, if_true] <;>
     (split <;> (try split) <;> (try split) <;> (try split) <;> (try split) <;> rfl)
 
+/-! ### in-process servers (`runInProcess` / `localProcess`) and the real client runner -/
+
+/-- **healthy_server_never_dead.**  A server run in-process that does not end by itself is never
+taken for dead, however long the batch lasts (any number of liveness tests at any times): the
+`whenDone` hook of `localProcess` runs when the process has ended — not when somebody's patience
+(the grace period of `result()`) has. -/
+theorem healthy_server_never_dead (checks : List Nat) :
+    diesOf (LocalProc.hookAt { exit := none }) checks = none := rfl
+
+/-- the hook runs exactly when the process ends -/
+theorem hook_iff_exit (p : LocalProc) (t : Nat) : p.hookAt = some t ↔ p.exit = some t := Iff.rfl
+
+/-- **dead_iff_tested_after_exit.**  With a server that ends at time t (liveness tests at
+non-decreasing times): case i is found dead iff its test comes at or after t — every case tested
+while the server was still running is handed to the client. -/
+theorem dead_iff_tested_after_exit (t : Nat) (checks : List Nat) (hmono : checks.Pairwise (· ≤ ·))
+    (i c : Nat) (hc : checks[i]? = some c) :
+    dead (diesOf (LocalProc.hookAt { exit := some t }) checks) i = decide (t ≤ c) := by
+  simp only [LocalProc.hookAt, diesOf, Option.map, dead]
+  by_cases h : t ≤ c
+  · have := takeWhile_len_le t checks i c hc h
+    simp [h, this]
+  · have := takeWhile_len_gt t checks i c hmono hc (by omega)
+    simp [h]; omega
+
+/-- waiting for an in-process peer is bounded by the grace period (the batch terminates), and the
+answer "it has ended" is only given when it has -/
+theorem local_result_bounded (p : LocalProc) (grace now : Nat) :
+    now ≤ (p.result grace now).1 ∧ (p.result grace now).1 ≤ now + grace ∧
+      ((p.result grace now).2 = true → ∃ t, p.exit = some t ∧ t ≤ now + grace) := by
+  unfold LocalProc.result
+  cases p.exit with
+  | none => simp
+  | some t =>
+    by_cases h : t ≤ now + grace
+    · simp [h]; omega
+    · simp [h]
+
+/-- **healthy_batch_keeps_verdicts.**  Healthy in-process server, no set-up fault, a client that
+takes every request: every case is recorded with the verdict of its own answer and nothing else —
+for every list of test times, i.e. for a batch of any duration. -/
+theorem healthy_batch_keeps_verdicts (s : Script) (checks : List Nat)
+    (hd : s.dies = diesOf (LocalProc.hookAt { exit := none }) checks) (hf : setupFault s = false)
+    (hacc : ∀ c ∈ s.cases, c ≠ Case.refuse) (i : Nat) (k : Kind) (a : Bool)
+    (hc : s.cases[i]? = some (.answer k a)) :
+    (i, verdict k) ∈ (runBatch s).log ∧ ∀ c, (i, c) ∈ (runBatch s).log → c = verdict k := by
+  have hdies : s.dies = none := by rw [hd]; rfl
+  have hi : i < s.cases.length := by
+    have := List.getElem?_eq_some_iff.mp hc
+    exact this.1
+  have hstop : i < stopIdx s.dies 0 s.cases := by
+    rw [hdies, stopIdx_all s.cases 0 hacc]; omega
+  exact answered_keep_verdict s hf i k a hstop hc
+
+/-- **wg_balanced** (composition with C10).  With the real client runner behind the send loop: in
+every terminal state of the runner, for every request whose `sendRequest` has returned, the
+loop's `WaitGroup` is balanced — accepted ⇒ exactly one callback, refused ⇒ none.  (A request that
+is both answered and refused would make the counter negative: the batch would end in a panic or
+overwrite the verdict of an answered case.) -/
+theorem wg_balanced (names : Nat → ClientRunner.Name) (evs : List ClientRunner.Event) (i : Nat)
+    (r : ClientRunner.SendRet)
+    (ht : ClientRunner.Spec.Terminal (ClientRunner.run names ClientRunner.init evs))
+    (hr : (ClientRunner.run names ClientRunner.init evs).spc i = .ret r) :
+    wgBalance (r == .ok) (ClientRunner.Spec.cbsOf (ClientRunner.run names ClientRunner.init evs) i).length = 0 := by
+  have h := ConfModel.Props.C10.exactly_once names evs i ht
+  rw [hr] at h
+  simp only [ClientRunner.Spec.retOf] at h
+  cases r with
+  | ok =>
+    simp only [ClientRunner.Spec.reqOK, Bool.and_eq_true, beq_iff_eq] at h
+    simp [wgBalance, h.1]
+  | dup =>
+    simp only [ClientRunner.Spec.reqOK, List.isEmpty_iff] at h
+    simp [wgBalance, h]
+  | err e =>
+    simp only [ClientRunner.Spec.reqOK, List.isEmpty_iff] at h
+    simp [wgBalance, h]
+
+/-- the case the send loop sees is a refusal exactly when `sendRequest` returned an error -/
+theorem caseOf_refuse_iff (accepted : Bool) (answer : Option Kind) :
+    caseOf accepted answer = .refuse ↔ accepted = false := by
+  cases accepted <;> simp [caseOf]
+
 /-! ### non-vacuity -/
+
+/-- a server that ends at time 300; the loop tests at 0, 0, 1500: cases 0 and 1 are handed out,
+case 2 is found dead -/
+example : diesOf (LocalProc.hookAt { exit := some 300 }) [0, 0, 1500] = some 2 ∧
+    [0, 0, 1500].Pairwise (· ≤ ·) := by decide
+
+/-- a healthy server and a batch that lasts longer than the grace period of 5000 -/
+example : diesOf (LocalProc.hookAt { exit := none }) [0, 0, 6500, 6500] = none ∧
+    (LocalProc.result { exit := none } 5000 0) = (5000, false) := by decide
+
+/-- the pipe to the client breaks in the middle of request 1 after the client has answered it:
+`sendRequest` returns nil, one callback — balanced; request 2 is refused, no callback — balanced -/
+def demoBreak : List ClientRunner.Event :=
+  [.sStart 0, .sLock 0, .sRegister 0, .sWriteOk 0, .rRecv 0, .rLookup, .rFire,
+   .sStart 1, .sLock 1, .sRegister 1, .rRecv 1, .rLookup, .rFire, .pExit 0, .sWriteFail 1,
+   .rRecvEOF, .rCloseSend, .rDrain, .rDone, .sStart 2, .sLock 2]
+
+example : let s := ClientRunner.run (fun i => i) ClientRunner.init demoBreak
+    s.rpc = .done ∧ s.spc 1 = .ret .ok ∧ ClientRunner.Spec.cbsOf s 1 = [some 1] ∧
+    s.spc 2 = .ret (.err .closed) ∧ ClientRunner.Spec.cbsOf s 2 = [] ∧
+    wgBalance true 1 = 0 ∧ wgBalance false 0 = 0 ∧ wgBalance false 1 = -1 := by decide
 
 def demo (cases : List Case) (dies : Option Nat) (resp : Resp) (tls : Bool) : Script :=
   { cases := cases, isRef := true, useTLS := tls, startErr := false, writeErr := false, closeErr := false,
